@@ -23,7 +23,12 @@ S4 == << <<<<1, 2>>, <<2, 1>>>> >>
 S5 == << <<<<1, 1>>, <<2, 2>>>>, <<<<2, 1>>, <<1, 2>>>> >>
 S6 == << <<<<1, 2>>>>, <<<<2, 2>>>> >>
 S7 == << <<<<1, 0>>>>, <<<<1, 2>>>> >>
-AllStructures == {S1, S2, S3, S4, S5, S6, S7}
+\* count -1: a track fragment without a run (tfhd + tfdt only) between fragments that have samples
+St8 == << <<<<1, 1>>>>, <<<<1, -1>>>>, <<<<1, 2>>>> >>
+\* two track fragments of the same track inside one moof
+St9 == << <<<<1, 2>>, <<1, 1>>>>, <<<<1, 1>>>> >>
+AllStructures == {S1, S2, S3, S4, S5, S6, S7, St8, St9}
+ExtraStructures == {St8, St9}
 QuickStructures == {S2, S5, S7}
 MixStructures == {S2, S3, S5}
 TrexBoth == {<<>>, <<7>>}
@@ -42,8 +47,8 @@ ModeAt(i) == CASE durMode = "mixA" -> (IF i % 2 = 1 THEN "trex" ELSE "tfhd")
 NTracks == IF \E i \in 1..Len(st) : \E j \in 1..Len(st[i]) : st[i][j][1] = 2 THEN 2 ELSE 1
 
 TrafOf(i, j) ==
-  LET n == st[i][j][2] IN
-  [ track |-> st[i][j][1], base |-> base,
+  LET n == IF st[i][j][2] < 0 THEN 0 ELSE st[i][j][2] IN
+  [ track |-> st[i][j][1], base |-> base, noTrun |-> st[i][j][2] < 0,
     tfhdDur |-> IF ModeAt(i) = "tfhd" THEN Some(<<5>>) ELSE None,
     tfdt |-> IF tfdtV = 1 THEN <<1, 0, 0, 0, i>> ELSE FromInt(100 * i + j),
     tfdtV |-> tfdtV,
